@@ -21,7 +21,8 @@ const prop = "C05"
 func TestMain(m *testing.M) { pbt.Main(m) }
 
 type Op struct {
-	Op string `json:"op"`
+	Op   string `json:"op"`
+	Hold bool   `json:"hold,omitempty"` // open / openSnap: a slow consumer - it reads 64 bytes and goes on only at a later "begin"; rdb / aofonly / del / switch: readers that are still open are NOT closed first (they belong to someone else, e.g. to followers served by a leader)
 	N  int64  `json:"n,omitempty"` // bytes / snapshot size / offset delta
 	K  int    `json:"k,omitempty"` // reader index
 }
@@ -44,7 +45,13 @@ func genCase(t *rapid.T) Case {
 	c.Start = rapid.Int64Range(1, 1<<40).Draw(t, "start")
 	n := rapid.IntRange(3, 30).Draw(t, "nops")
 	if rapid.Bool().Draw(t, "beginRdb") {
-		c.Ops = append(c.Ops, Op{Op: "rdb", N: rapid.Int64Range(1, 3*c.LogSize).Draw(t, "rdbSize")})
+		size := rapid.Int64Range(1, 3*c.LogSize).Draw(t, "rdbSize")
+		if rapid.IntRange(0, 5).Draw(t, "bigRdb") == 0 {
+			// larger than everything a reader buffers ahead of its consumer (1 MiB pipe + 1 MiB buffer): a slow consumer then keeps the
+			// snapshot referenced for as long as it likes
+			size = 2<<20 + rapid.Int64Range(100000, 600000).Draw(t, "bigRdbSize")
+		}
+		c.Ops = append(c.Ops, Op{Op: "rdb", N: size})
 	} else {
 		c.Ops = append(c.Ops, Op{Op: "aofonly"})
 	}
@@ -53,25 +60,32 @@ func genCase(t *rapid.T) Case {
 		case w < 11:
 			c.Ops = append(c.Ops, Op{Op: "append", N: rapid.OneOf(rapid.Int64Range(1, 20), rapid.Int64Range(1, 3*c.LogSize), rapid.Just(c.LogSize), rapid.Just(c.LogSize-1), rapid.Just(c.LogSize+1)).Draw(t, "n")})
 		case w < 17:
-			c.Ops = append(c.Ops, Op{Op: "open", N: rapid.Int64Range(-6, 1000).Draw(t, "dx")})
+			c.Ops = append(c.Ops, Op{Op: "open", N: rapid.Int64Range(-6, 1000).Draw(t, "dx"), Hold: rapid.IntRange(0, 5).Draw(t, "hold") == 0})
 		case w < 19:
 			c.Ops = append(c.Ops, Op{Op: "openTail", N: rapid.Int64Range(-3, 6).Draw(t, "dtail")})
-		case w < 21:
+		case w < 20:
 			c.Ops = append(c.Ops, Op{Op: "close", K: rapid.IntRange(0, 8).Draw(t, "k")})
+		case w < 21:
+			c.Ops = append(c.Ops, Op{Op: "begin"})
 		case w < 24:
 			c.Ops = append(c.Ops, Op{Op: "gc"})
 		case w < 25:
 			c.Ops = append(c.Ops, Op{Op: "replace"})
 		case w < 26:
-			c.Ops = append(c.Ops, Op{Op: "switch"})
+			c.Ops = append(c.Ops, Op{Op: "switch", Hold: rapid.IntRange(0, 2).Draw(t, "keepReaders") == 0})
 		case w < 27:
-			c.Ops = append(c.Ops, Op{Op: "del"})
+			c.Ops = append(c.Ops, Op{Op: "del", Hold: rapid.IntRange(0, 2).Draw(t, "keepReaders") == 0})
 		case w < 28:
-			c.Ops = append(c.Ops, Op{Op: "rdb", N: rapid.Int64Range(1, 3*c.LogSize).Draw(t, "rdbSize2")})
+			if rapid.Bool().Draw(t, "snapReader") {
+				// a reader on the cached snapshot (what a target that needs the full copy gets), typically still open when the collector runs
+				c.Ops = append(c.Ops, Op{Op: "openSnap", N: rapid.Int64Range(1, 6).Draw(t, "below"), Hold: rapid.Bool().Draw(t, "holdSnap")})
+			} else {
+				c.Ops = append(c.Ops, Op{Op: "rdb", N: rapid.Int64Range(1, 3*c.LogSize).Draw(t, "rdbSize2"), Hold: rapid.IntRange(0, 2).Draw(t, "keepReaders") == 0})
+			}
 		case w < 29:
 			c.Ops = append(c.Ops, Op{Op: "reopen"})
 		default:
-			c.Ops = append(c.Ops, Op{Op: "aofonly"})
+			c.Ops = append(c.Ops, Op{Op: "aofonly", Hold: rapid.IntRange(0, 2).Draw(t, "keepReaders") == 0})
 		}
 	}
 	return c
@@ -83,6 +97,8 @@ type pumpRef struct {
 	p     *cache.Pump
 	epoch int
 	open  bool
+	held  bool // slow consumer, paused
+	slow  bool // was a slow consumer at some time: the cache's reader is then up to 2 MiB ahead of what the consumer has taken
 }
 
 type runner struct {
@@ -115,8 +131,43 @@ func (r *runner) newLineage() {
 
 func (r *runner) off(o int64) syncer.Offset { return syncer.Offset{RunId: r.id, Offset: o} }
 
+// guarded runs one call into the cache that resets it; with readers of other parties still open the call is given 20 s
+func (r *runner) guarded(what string, f func() error) (error, bool) {
+	ch := make(chan error, 1)
+	go func() { ch <- f() }()
+	select {
+	case err := <-ch:
+		return err, true
+	case <-time.After(20 * time.Second):
+		open := 0
+		for _, p := range r.pumps {
+			if p.open {
+				open++
+			}
+		}
+		r.fail("cache-reset-never-returns", fmt.Sprintf("%s has not returned after 20 s (%d readers of the previous contents still open, range [%d,%d], snapshot=%v)", what, open, r.left, r.right, r.rdbOK))
+		r.hung = true
+		return nil, false
+	}
+}
+
+func (r *runner) closeStaleUnless(keep bool) {
+	if keep {
+		for _, p := range r.pumps {
+			if p.open {
+				r.facts["reset-with-open-readers"] = true
+				if !p.p.Aof && p.held {
+					r.facts["reset-with-live-snapshot-reader"] = true
+				}
+			}
+		}
+		return
+	}
+	r.closeStale()
+}
+
 func (r *runner) closeStale() {
-	// the callers close the readers of a run before they reset the cache
+	// the input closes its own reader before it resets the cache
 	for _, p := range r.pumps {
 		if p.open {
 			p.p.Close()
@@ -128,6 +179,9 @@ func (r *runner) closeStale() {
 // checkAll verifies every byte every reader has returned, and that live readers follow the writer.
 func (r *runner) checkAll() {
 	for i, p := range r.pumps {
+		if p.held {
+			continue
+		}
 		if p.open && p.epoch == r.epoch {
 			if p.p.Aof && p.p.X <= r.right {
 				want := int(r.right - p.p.X)
@@ -160,6 +214,9 @@ func (r *runner) checkAll() {
 		}
 	}
 	if r.has {
+		r.probeValid()
+	}
+	if r.has {
 		l, rr := r.ch.C.GetOffsetRange(r.id)
 		if rr != r.right {
 			r.fail("range-right-mismatch", fmt.Sprintf("GetOffsetRange reports right=%d, %d bytes up to offset %d were written", rr, r.right-r.left, r.right))
@@ -170,19 +227,92 @@ func (r *runner) checkAll() {
 	}
 }
 
+// probeValid: "an offset is reported valid only if such a read is possible" - after every step a few offsets of the reported range
+// (both ends, next to them, the middle) are asked for; where the cache says valid, a fresh reader must open and deliver the right bytes.
+func (r *runner) probeValid() {
+	l, rr := r.ch.C.GetOffsetRange(r.id)
+	if l < 0 || rr < l {
+		return
+	}
+	seen := map[int64]bool{}
+	for _, x := range []int64{l, l + 1, (l + rr) / 2, rr - 1, rr} {
+		if x < l || x > rr || seen[x] {
+			continue
+		}
+		seen[x] = true
+		if !r.ch.C.IsValidOffset(r.off(x)) {
+			continue
+		}
+		type opened struct {
+			rd  syncer.ChannelReader
+			err error
+		}
+		och := make(chan opened, 1)
+		go func() {
+			rd, err := r.ch.C.NewReader(r.off(x))
+			och <- opened{rd, err}
+		}()
+		var o opened
+		select {
+		case o = <-och:
+		case <-time.After(20 * time.Second):
+			r.fail("reader-open-never-returns", fmt.Sprintf("NewReader(%d) has not returned after 20 s (range [%d,%d], verifyCrc=%v)", x, l, rr, r.c.VerifyCrc))
+			r.hung = true
+			return
+		}
+		if o.err != nil {
+			r.fail("valid-offset-not-readable", fmt.Sprintf("IsValidOffset(%d) is true (reported range [%d,%d], written [%d,%d], snapshot=%v) but NewReader fails: %v", x, l, rr, r.left, r.right, r.rdbOK, o.err))
+			return
+		}
+		r.facts["probe"] = true
+		p := cache.StartPump(o.rd, r.lin, x)
+		if p.Aof {
+			want := int(rr - x)
+			if want > 8 {
+				want = 8
+			}
+			if o.rd.Left() != x {
+				r.fail("reader-left-differs", fmt.Sprintf("reader requested at %d reports Left()=%d", x, o.rd.Left()))
+			} else if !p.WaitProgress(want, 10*time.Second, 60*time.Second) {
+				_, done, err := p.Snapshot()
+				if done {
+					r.fail("valid-offset-not-readable", fmt.Sprintf("IsValidOffset(%d) is true (reported range [%d,%d]) but a fresh reader ended with %v after %d bytes", x, l, rr, err, p.Len()))
+				} else {
+					r.inconc = fmt.Sprintf("probe reader at %d delivered %d of %d bytes and then nothing for 10 s", x, p.Len(), want)
+				}
+			}
+			if d := p.Verify(); d != "" {
+				r.fail("reader-returned-wrong-bytes", "probe "+d)
+			}
+		} else if !r.rdbOK {
+			r.fail("snapshot-offered-but-absent", fmt.Sprintf("a snapshot reader was handed out for offset %d but no complete snapshot is cached", x))
+		}
+		p.Close()
+		if len(r.fails) > 0 || r.inconc != "" {
+			return
+		}
+	}
+}
+
 func (r *runner) step(op Op) {
 	switch op.Op {
 	case "rdb", "aofonly":
-		r.closeStale()
+		r.closeStaleUnless(op.Hold)
 		r.ch.StopWriter() // a new run: the previous run's writer was stopped when that run ended
 		if r.ch.C.RunId() != "" {
-			if err := r.ch.C.DelRunId(r.ch.C.RunId()); err != nil {
+			err, ok := r.guarded("DelRunId", func() error { return r.ch.C.DelRunId(r.ch.C.RunId()) })
+			if !ok {
+				return
+			}
+			if err != nil {
 				r.inconc = "DelRunId: " + err.Error()
 				return
 			}
 		}
 		r.newLineage()
-		if err := r.ch.C.SetRunId(r.id); err != nil {
+		if err, ok := r.guarded("SetRunId", func() error { return r.ch.C.SetRunId(r.id) }); !ok {
+			return
+		} else if err != nil {
 			r.inconc = "SetRunId: " + err.Error()
 			return
 		}
@@ -210,12 +340,14 @@ func (r *runner) step(op Op) {
 			return
 		}
 		r.right += op.N
-	case "open", "openTail":
-		if !r.has {
+	case "open", "openTail", "openSnap":
+		if !r.has || (op.Op == "openSnap" && !r.rdbOK) {
 			return
 		}
 		x := r.left + op.N
-		if op.Op == "openTail" {
+		if op.Op == "openSnap" {
+			x = r.rdbOff - op.N
+		} else if op.Op == "openTail" {
 			x = r.right + op.N
 		} else if x > r.right+5 {
 			x = r.left + op.N%(r.right-r.left+6)
@@ -249,7 +381,12 @@ func (r *runner) step(op Op) {
 			}
 			return
 		}
-		p := cache.StartPump(rd, r.lin, x)
+		lim := int64(-1)
+		if op.Hold {
+			lim = 64
+			r.facts["slow-consumer"] = true
+		}
+		p := cache.StartPumpLimit(rd, r.lin, x, lim)
 		if p.Aof {
 			if rd.Left() != x {
 				r.fail("reader-left-differs", fmt.Sprintf("reader requested at %d reports Left()=%d", x, rd.Left()))
@@ -265,7 +402,14 @@ func (r *runner) step(op Op) {
 			}
 			r.facts["snapshot-reader"] = true
 		}
-		r.pumps = append(r.pumps, &pumpRef{p: p, epoch: r.epoch, open: true})
+		r.pumps = append(r.pumps, &pumpRef{p: p, epoch: r.epoch, open: true, held: op.Hold, slow: op.Hold})
+	case "begin":
+		for _, p := range r.pumps {
+			if p.held && p.open {
+				p.held = false
+				p.p.Resume()
+			}
+		}
 	case "close":
 		if op.K < len(r.pumps) && r.pumps[op.K].open {
 			r.pumps[op.K].p.Close()
@@ -275,13 +419,18 @@ func (r *runner) step(op Op) {
 		if !r.has {
 			return
 		}
+		for _, p := range r.pumps {
+			if p.open && p.held && p.epoch == r.epoch && !p.p.Aof {
+				r.facts["gc-while-slow-snapshot-reader"] = true
+			}
+		}
 		r.ch.Gc()
 		l, _ := r.ch.C.GetOffsetRange(r.id)
 		if l > r.left {
 			r.facts["gc-removed-segment"] = true
 			// a live reader must never lose the bytes ahead of it
 			for i, p := range r.pumps {
-				if p.open && p.epoch == r.epoch && p.p.Aof && p.p.X+int64(p.p.Len()) < l {
+				if p.open && !p.slow && p.epoch == r.epoch && p.p.Aof && p.p.X+int64(p.p.Len()) < l {
 					r.fail("gc-removed-bytes-under-a-reader", fmt.Sprintf("collector advanced left to %d while reader %d is still at %d", l, i, p.p.X+int64(p.p.Len())))
 				}
 			}
@@ -302,11 +451,13 @@ func (r *runner) step(op Op) {
 		if !r.has {
 			return
 		}
-		r.closeStale()
+		r.closeStaleUnless(op.Hold)
 		r.ch.StopWriter()
 		r.epoch++
 		r.id = fmt.Sprintf("%039da", r.lin)
-		if err := r.ch.C.SetRunId(r.id); err != nil {
+		if err, ok := r.guarded("SetRunId", func() error { return r.ch.C.SetRunId(r.id) }); !ok {
+			return
+		} else if err != nil {
 			r.inconc = "SetRunId(switch): " + err.Error()
 			return
 		}
@@ -317,10 +468,12 @@ func (r *runner) step(op Op) {
 		if !r.has {
 			return
 		}
-		r.closeStale()
+		r.closeStaleUnless(op.Hold)
 		r.ch.StopWriter()
 		r.epoch++
-		if err := r.ch.C.DelRunId(r.id); err != nil {
+		if err, ok := r.guarded("DelRunId", func() error { return r.ch.C.DelRunId(r.id) }); !ok {
+			return
+		} else if err != nil {
 			r.inconc = "DelRunId: " + err.Error()
 			return
 		}
